@@ -336,8 +336,8 @@ Section KeyExec.
     Node (KSingle (string_of_bytes (utf8 k)))
          {| text := key_text q k; ctext := (key_text q k ++ "")%string; vgroup := false; accessor := cfg_accessor cfg |} ONone.
 
-  Lemma exec_key_action q k st : (q = 34 \/ q = 39) ->
-    exec_action cfg parse_float regex_ok (qact q) (esc_cps q k) 3 st = AOk (push_single cfg (string_of_bytes (utf8 k)) st).
+  Lemma exec_key_action q k bg st : (q = 34 \/ q = 39) ->
+    exec_action cfg parse_float regex_ok (qact q) (esc_cps q k) bg st = AOk (push_single cfg (string_of_bytes (utf8 k)) st).
   Proof.
     intros [-> | ->]; unfold qact; cbn [N.eqb Pos.eqb exec_action]; rewrite utf8_esc by lia.
     - change (flat_map (esc_json_byte 34) (utf8 k)) with (esc_double (utf8 k)). rewrite unescape_double_esc. reflexivity.
@@ -351,7 +351,7 @@ Section KeyExec.
     cbn [execute]. rewrite sub_key, sub_bracket.
     change (exec_action cfg parse_float regex_ok 8 [] 0 ps_init) with
       (AOk (push (INode (Node KRoot (mk_basic "$" false (cfg_accessor cfg)) ONone)) ps_init)).
-    cbn [abind]. rewrite (exec_key_action q k _ Hq). cbn [abind].
+    cbn [abind]. rewrite (exec_key_action q k _ _ Hq). cbn [abind].
     unfold key_node, key_text.
     remember (91 :: q :: esc_cps q k ++ [q; 93]) as T eqn:HT. remember (string_of_bytes (utf8 k)) as key eqn:Hkey.
     remember (text_of T) as tt eqn:Htt.
@@ -396,36 +396,42 @@ Proof.
       * eapply ev_seq_ok; [apply ev_not_ok; apply ev_sym_fail; exact Es| |reflexivity].
         eapply ev_conv; [apply ev_any_ok|]. f_equal. lia.
 Qed.
-Lemma ev_dbody_eof pos : evG dbody [] pos PFail.
+Definition dot_stop (rest : list N) : Prop := match rest with [] => True | x :: _ => x = 46 \/ x = 91 end.
+Lemma ev_dbody_stop rest pos : dot_stop rest -> evG dbody rest pos PFail.
 Proof.
-  unfold dbody. apply ev_alt_r.
-  - apply ev_seq_fail. apply (ev_lit_fail G [92]). reflexivity.
-  - eapply ev_seq_fail2; [apply ev_not_ok; apply ev_cls_eof|].
-    eapply ev_seq_fail2; [apply ev_not_ok; apply ev_sym_eof|]. apply ev_any_fail.
+  unfold dbody. destruct rest as [|x r]; intros Hs.
+  - apply ev_alt_r.
+    + apply ev_seq_fail. apply (ev_lit_fail G [92]). reflexivity.
+    + eapply ev_seq_fail2; [apply ev_not_ok; apply ev_cls_eof|].
+      eapply ev_seq_fail2; [apply ev_not_ok; apply ev_sym_eof|]. apply ev_any_fail.
+  - cbn [dot_stop] in Hs. apply ev_alt_r.
+    + apply ev_seq_fail. apply (ev_lit_fail G [92]). apply strip1_no. destruct Hs as [-> | ->]; discriminate.
+    + eapply ev_seq_fail2; [apply ev_not_ok; apply ev_cls_fail; destruct Hs as [-> | ->]; reflexivity|].
+      apply ev_seq_fail. eapply ev_not_fail. apply ev_sym_ok. destruct Hs as [-> | ->]; reflexivity.
 Qed.
 Lemma dot_unit_len c : (1 <= List.length (dot_unit c))%nat.
 Proof. unfold dot_unit. destruct (dot_sym c); cbn; lia. Qed.
 
-Lemma ev_dbody_star k pos : forallb dot_char k = true ->
-  evG (PStar dbody) (esc_dot_cps k) pos (POk [] (pos + List.length (esc_dot_cps k)) []).
+Lemma ev_dbody_star k rest pos : forallb dot_char k = true -> dot_stop rest ->
+  evG (PStar dbody) (esc_dot_cps k ++ rest) pos (POk rest (pos + List.length (esc_dot_cps k)) []).
 Proof.
-  revert pos. induction k as [|c k IH]; intros pos Hk.
-  - cbn [esc_dot_cps flat_map List.length]. eapply ev_conv; [apply ev_star_stop; apply ev_dbody_eof|f_equal; lia].
+  intros Hk Hs. revert pos Hk. induction k as [|c k IH]; intros pos Hk.
+  - cbn [esc_dot_cps flat_map List.length app]. eapply ev_conv; [apply ev_star_stop; apply ev_dbody_stop; exact Hs|f_equal; lia].
   - cbn [forallb] in Hk. apply andb_true_iff in Hk. destruct Hk as [Hc Hk].
-    unfold esc_dot_cps in *. cbn [flat_map]. fold (dot_unit c). rewrite app_length.
-    pose proof (ev_dbody_unit c (flat_map (fun c0 => if dot_sym c0 then [92; c0] else [c0]) k) pos Hc) as H1.
+    unfold esc_dot_cps in *. cbn [flat_map]. fold (dot_unit c). rewrite <- app_assoc, app_length.
+    pose proof (ev_dbody_unit c (flat_map (fun c0 => if dot_sym c0 then [92; c0] else [c0]) k ++ rest) pos Hc) as H1.
     pose proof (dot_unit_len c) as Hl.
     pose proof (ev_star_step G _ _ _ _ _ _ _ _ _ H1 ltac:(lia) (IH (pos + List.length (dot_unit c))%nat Hk)) as H2.
     eapply ev_conv; [exact H2|]. f_equal. lia.
 Qed.
-Lemma ev_dbody_plus c k pos : forallb dot_char (c :: k) = true ->
-  evG (PPlus dbody) (esc_dot_cps (c :: k)) pos (POk [] (pos + List.length (esc_dot_cps (c :: k))) []).
+Lemma ev_dbody_plus c k rest pos : forallb dot_char (c :: k) = true -> dot_stop rest ->
+  evG (PPlus dbody) (esc_dot_cps (c :: k) ++ rest) pos (POk rest (pos + List.length (esc_dot_cps (c :: k))) []).
 Proof.
-  intros Hk. cbn [forallb] in Hk. apply andb_true_iff in Hk. destruct Hk as [Hc Hk].
-  unfold esc_dot_cps in *. cbn [flat_map]. fold (dot_unit c). rewrite app_length.
-  pose proof (ev_dbody_unit c (flat_map (fun c0 => if dot_sym c0 then [92; c0] else [c0]) k) pos Hc) as H1.
+  intros Hk Hs. cbn [forallb] in Hk. apply andb_true_iff in Hk. destruct Hk as [Hc Hk].
+  unfold esc_dot_cps in *. cbn [flat_map]. fold (dot_unit c). rewrite <- app_assoc, app_length.
+  pose proof (ev_dbody_unit c (flat_map (fun c0 => if dot_sym c0 then [92; c0] else [c0]) k ++ rest) pos Hc) as H1.
   pose proof (dot_unit_len c) as Hl.
-  pose proof (ev_plus G _ _ _ _ _ _ _ _ _ H1 ltac:(lia) (ev_dbody_star k (pos + List.length (dot_unit c))%nat Hk)) as H2.
+  pose proof (ev_plus G _ _ _ _ _ _ _ _ _ H1 ltac:(lia) (ev_dbody_star k rest (pos + List.length (dot_unit c))%nat Hk Hs)) as H2.
   unfold esc_dot_cps in H2. eapply ev_conv; [exact H2|]. f_equal. lia.
 Qed.
 
@@ -437,16 +443,19 @@ Proof.
   - eexists _, _. split; [reflexivity|]. split; intros ->; [rewrite dot_sym_42 in Es|rewrite dot_sym_46 in Es]; discriminate.
 Qed.
 
-Lemma ev_rule13 c k pos : forallb dot_char (c :: k) = true ->
-  evG (PRef 13) (esc_dot_cps (c :: k)) pos
-      (POk [] (pos + List.length (esc_dot_cps (c :: k)))%nat [TText pos (pos + List.length (esc_dot_cps (c :: k))); TAct 10]).
+Lemma strip_stop rest : dot_stop rest -> strip_prefix [40; 41] rest = None.
+Proof. destruct rest as [|x r]; [reflexivity|]. cbn [dot_stop]. intros [-> | ->]; reflexivity. Qed.
+
+Lemma ev_rule13 c k rest pos : forallb dot_char (c :: k) = true -> dot_stop rest ->
+  evG (PRef 13) (esc_dot_cps (c :: k) ++ rest) pos
+      (POk rest (pos + List.length (esc_dot_cps (c :: k)))%nat [TText pos (pos + List.length (esc_dot_cps (c :: k))); TAct 10]).
 Proof.
-  intros Hk. eapply ev_ref; [exact rule13_shape|].
+  intros Hk Hs. eapply ev_ref; [exact rule13_shape|].
   destruct (dot_first c k) as (x & r & Hx & H42 & _).
   apply ev_alt_r.
-  - rewrite Hx. eapply ev_ref; [reflexivity|]. apply ev_seq_fail. apply (ev_lit_fail G [42]). apply strip1_no. exact H42.
-  - eapply ev_seq_ok; [apply ev_cap; apply ev_dbody_plus; exact Hk| |reflexivity].
-    eapply ev_seq_ok; [apply ev_not_ok; apply (ev_lit_fail G [40; 41]); reflexivity|apply ev_act|reflexivity].
+  - rewrite Hx. cbn [app]. eapply ev_ref; [reflexivity|]. apply ev_seq_fail. apply (ev_lit_fail G [42]). apply strip1_no. exact H42.
+  - eapply ev_seq_ok; [apply ev_cap; apply ev_dbody_plus; [exact Hk|exact Hs]| |reflexivity].
+    eapply ev_seq_ok; [apply ev_not_ok; apply (ev_lit_fail G [40; 41]); apply strip_stop; exact Hs|apply ev_act|reflexivity].
 Qed.
 
 Lemma strip2_no2 a b c r : c <> b -> strip_prefix [a; b] (a :: c :: r) = None.
@@ -455,19 +464,19 @@ Proof.
   assert (E : (b =? c) = false) by (apply N.eqb_neq; intros ->; apply H; reflexivity). rewrite E. reflexivity.
 Qed.
 
-(* childNode on .name at the end of the path *)
-Lemma ev_rule7_dot c k pos : forallb dot_char (c :: k) = true ->
-  evG (PRef 7) (46 :: esc_dot_cps (c :: k)) pos
-      (POk [] (pos + 1 + List.length (esc_dot_cps (c :: k)))%nat
+(* childNode on .name followed by the end of the path or by another step *)
+Lemma ev_rule7_dot c k rest pos : forallb dot_char (c :: k) = true -> dot_stop rest ->
+  evG (PRef 7) (46 :: esc_dot_cps (c :: k) ++ rest) pos
+      (POk rest (pos + 1 + List.length (esc_dot_cps (c :: k)))%nat
            [TText (pos + 1) (pos + 1 + List.length (esc_dot_cps (c :: k))); TAct 10;
             TText pos (pos + 1 + List.length (esc_dot_cps (c :: k))); TAct 4]).
 Proof.
-  intros Hk. eapply ev_ref; [reflexivity|].
+  intros Hk Hs. eapply ev_ref; [reflexivity|].
   destruct (dot_first c k) as (x & r & Hx & _ & H46).
-  apply ev_alt_r; [apply ev_seq_fail; apply (ev_lit_fail G [46; 46]); rewrite Hx; apply strip2_no2; exact H46|].
+  apply ev_alt_r; [apply ev_seq_fail; apply (ev_lit_fail G [46; 46]); rewrite Hx; cbn [app]; apply strip2_no2; exact H46|].
   apply ev_alt_l. eapply ev_conv.
   - eapply ev_seq_ok; [apply ev_cap| apply ev_act |reflexivity].
-    eapply ev_seq_ok; [apply (ev_lit_ok G [46]); apply strip1_ok|apply ev_rule13; exact Hk|reflexivity].
+    eapply ev_seq_ok; [apply (ev_lit_ok G [46]); apply strip1_ok|apply ev_rule13; [exact Hk|exact Hs]|reflexivity].
   - cbn [List.length app]. reflexivity.
 Qed.
 
@@ -488,7 +497,7 @@ Proof.
         eapply ev_seq_ok; [apply (ev_lit_ok G [36]); apply strip1_ok|apply ev_act|reflexivity].
       * eapply ev_ref; [reflexivity|].
         eapply ev_seq_ok; [| |reflexivity].
-        -- eapply ev_star_step; [apply (ev_rule7_dot c k); exact Hk|cbn [List.length]; lia|].
+        -- eapply ev_star_step; [pose proof (ev_rule7_dot c k [] 1 Hk I) as H7; rewrite app_nil_r in H7; exact H7|cbn [List.length]; lia|].
            apply ev_star_stop. apply ev_rule7_eof.
         -- eapply ev_seq_ok; [apply ev_star_stop; apply ev_rule8_eof| |reflexivity].
            eapply ev_seq_ok; [apply ev_space_eof|apply ev_act|reflexivity].
